@@ -176,3 +176,72 @@ def programs(level=3):
     if level >= 3:
         out += three_level()
     return out
+
+
+# ---- type expressions -------------------------------------------------------------------
+# (text, usable as a bare parameter/return type of a `func` type)
+TYPES = [
+    ("int", True), ("float", True), ("text", True), ("bool", True), ("date", True), ("time", True), ("timestamp", True),
+    ("null", False), ("anytype", True), ("[int]", True), ("[text]", True), ("{a = int}", True), ("{a = int, b = text}", True),
+    ("{int, text}", True), ("[{a = int, b = text}]", True), ("int || text", False), ("int || null", False),
+    ("{a = int || null}", True), ("[int || text]", True), ("func int -> int", False), ("func int text -> bool", False),
+    ("func -> int", False), ("{a = int, ..}", True), ("{..}", True), ("[{..}]", True), ("my.ty", True), ("my_t", True),
+    ("relation", True), ("scalar", True), ("{a = {b = int}}", True), ("[[int]]", True), ("1", False), ('"x"', False),
+    ("1 || 2", False), ("true || null", False), ("{a = int, b = [text]}", True), ("func {a = int} -> [int]", False),
+    ("int || text || bool", False), ("{x = int || text, y = func int -> int}", False),
+]
+TYPE_SLOTS = [
+    ("type_def", "type my = %s\nfrom t", False),
+    ("let_ty", "let v <%s> = 1\nfrom t", False),
+    ("param_ty", "let g = func x <%s> -> x\nfrom t", False),
+    ("param2_ty", "let g = func x <%s> y <int> -> x\nfrom t", False),
+    ("named_param_ty", "let g = func x y <%s>:1 -> x\nfrom t", False),
+    ("ret_ty", "let g = func x -> <%s> x\nfrom t", False),
+    ("lambda_ty", "from t | derive {z = (func x <%s> -> x)}", False),
+    ("generic", "let g = func <T> x <%s> -> x\nfrom t", False),
+    ("union_l", "type my = %s || int\nfrom t", True),
+    ("union_r", "type my = int || %s\nfrom t", True),
+    ("array_of", "type my = [%s]\nfrom t", False),
+    ("tuple_of", "type my = {a = %s}\nfrom t", False),
+    ("tuple_unnamed", "type my = {%s, int}\nfrom t", False),
+    ("func_arg", "type my = func %s -> int\nfrom t", True),
+    ("func_ret", "type my = func int -> %s\nfrom t", True),
+    ("module_type", "module m {\n  type my = %s\n}\nfrom t", False),
+]
+
+
+def type_programs():
+    """Every type expression in every place that takes a type.  Slots whose grammar takes a
+    single type term (no bare union / function type) only get terms."""
+    out = []
+    for sname, st, term_only in TYPE_SLOTS:
+        for t, is_term in TYPES:
+            if term_only and not is_term:
+                continue
+            out.append(("%s<%s" % (sname, t), st % t))
+    return out
+
+
+# ---- statements --------------------------------------------------------------------------
+STMTS=[("let_scalar","let a = 1"),("let_typed","let a <int> = 1"),("let_func","let f = x -> x + 1"),("let_func_named","let f = x y:2 -> x + y"),("let_func_typed","let f = func x <int> -> <int> x"),
+("let_rel","let r = (from t | take 5)"),("let_rel_multi","let r = (\n  from t\n  take 5\n)"),("let_tuple","let c = {a = 1, b = 2}"),("let_array","let c = [1, 2]"),("let_sstr",'let s = s"SELECT 1"'),
+("type_def","type ty = int || text"),("module","module m {\n  let x = 1\n}"),("module_empty","module m {\n}"),("module_nested","module m {\n  module n {\n    let y = 1\n  }\n}"),
+("import","import m.x"),("import_as","import m.x as z"),("annot_let","@{binding_strength=2}\nlet f = x -> x"),("doc_let","#! doc\nlet a = 1"),("comment_let","# comment\nlet a = 1"),
+("main","from t | select {a}"),("main_multi","from t\nselect {a}\ntake 5"),("main_into","from t | into w"),("let_main","let main = (from t)"),("let_generic","let f = func <T> x <T> -> x"),
+("let_pipeline_body","let f = x -> (x | as int)"), ("let_case","let c = case [true => 1]"),("let_range","let r = 1..5"),("let_neg","let n = -1"),("let_date","let d = @2020-01-01"),("let_lambda_multi","let f = func\n  x\n  y\n  -> x + y")]
+
+
+def stmt_programs():
+    """Every statement kind alone, every ordered pair of statement kinds with a newline / blank line /
+    comment between them, and every pair inside a module."""
+    items = []
+    for an, a in STMTS:
+        items.append((an, a + "\n"))
+        for bn, b in STMTS:
+            if an.startswith("main") and bn.startswith("main"):
+                continue
+            for sep, sn in (("\n", "nl"), ("\n\n", "blank"), ("\n# c\n", "comment")):
+                items.append(("%s+%s/%s" % (an, bn, sn), a + sep + b + "\n"))
+            items.append(("mod{%s+%s}" % (an, bn),
+                          "module q {\n  " + a.replace("\n", "\n  ") + "\n  " + b.replace("\n", "\n  ") + "\n}\nfrom t\n"))
+    return items
